@@ -10,12 +10,19 @@ extra = [a for a in sys.argv[3:] if not a.startswith("--")]
 NOSAN = "--nosan" in sys.argv
 TSAN = "--tsan" in sys.argv
 LIMIT = next((a.split("=")[1] for a in sys.argv if a.startswith("--limit=")), None)
-src = "/tmp/seed/%s-out" % pid
+ROUND2 = "--round2" in sys.argv
+src = ("/tmp/seed2/%s-out" if ROUND2 else "/tmp/seed/%s-out") % pid
 wt = "/tmp/seedeval-%s-%s" % (pid, k)
 def sh(cmd, **kw):
     return subprocess.run(cmd, shell=True, stdout=subprocess.PIPE, stderr=subprocess.STDOUT, text=True, **kw)
 sh("git -C /repo worktree remove --force %s" % wt)
 r = sh("git -C /repo worktree add --detach %s HEAD" % wt); assert r.returncode == 0, r.stdout
+if ROUND2 and os.path.exists("%s/notes%s.md" % (src, k)):
+    head = open("%s/notes%s.md" % (src, k)).read()[:400]
+    if re.search(r"SANITIZER:\s*tsan", head, re.I): TSAN = True
+    if re.search(r"SANITIZER:\s*none", head, re.I): NOSAN = True
+    m_ = re.search(r"LIMIT:\s*(\d+)", head)
+    if m_: LIMIT = m_.group(1)
 meta = {"demo_build": ("no sanitizer" if NOSAN else "tsan" if TSAN else "asan+ubsan") + ((", CBOR_MAX_STACK_SIZE=" + LIMIT) if LIMIT else ""), "property": pid, "variant": int(k), "source": "sub-agent given only the property title and statement", "ran": []}
 def build():
     r = sh("cd %s && cmake -S . -B _build -G Ninja -DWITH_TESTS=ON -DCMAKE_BUILD_TYPE=RelWithDebInfo >/dev/null 2>&1 && cmake --build _build 2>&1 | tail -n 3" % wt)
@@ -55,7 +62,7 @@ for c in [pid] + extra:
         if m and os.path.exists(m.group(1)): os.unlink(m.group(1))
 meta["checks"] = res
 meta["detected_by"] = [c for c, v in res.items() if v["exit"] == 1]
-d = "/verif/seeded/%s-%s" % (pid, k)
+d = "/verif/seeded/%s-%s" % (pid, int(k) + 2 if ROUND2 else k)
 os.makedirs(d, exist_ok=True)
 shutil.copy("%s/patch%s.diff" % (src, k), d + "/patch.diff")
 shutil.copy("%s/demo%s.c" % (src, k), d + "/demo.c")
